@@ -170,7 +170,8 @@ package trend
 //@ step[C01] "ema1" forall j :: 0 <= j && j < len(ema1[1]) ==> ema1[0][j] == emaSt(c, d.Ema1.Period, emam(d.Ema1))[j] && ema1[1][j] == emaSt(c, d.Ema1.Period, emam(d.Ema1))[j]
 //@ use ema_cong(ema1[1], emaSt(c, d.Ema1.Period, emam(d.Ema1)), d.Ema2.Period, emam(d.Ema2), _)
 //@ step[C01] "as-implemented" forall k :: 0 <= k && k < len(result) ==> result[k] == 2 * emaSt(c, d.Ema1.Period, emam(d.Ema1))[k] - emaS(emaSt(c, d.Ema1.Period, emam(d.Ema1)), d.Ema2.Period, emam(d.Ema2), k)
-//@ ensures[C01] "documented" forall k :: 0 <= k && k < len(result) ==> result[k] == demaS(c, d.Ema1.Period, emam(d.Ema1), d.Ema2.Period, emam(d.Ema2))[k]
+//@ ensures[C01] "as-implemented" forall k :: 0 <= k && k < len(result) ==> result[k] == 2 * emaSt(c, d.Ema1.Period, emam(d.Ema1))[k] - emaS(emaSt(c, d.Ema1.Period, emam(d.Ema1)), d.Ema2.Period, emam(d.Ema2), k)
+//@ guarantees[C01] "documented" forall k :: 0 <= k && k < len(result) ==> result[k] == demaS(c, d.Ema1.Period, emam(d.Ema1), d.Ema2.Period, emam(d.Ema2))[k]
 
 // TEMA = (3 * EMA1) - (3 * EMA2) + EMA3, EMA1 = EMA(values), EMA2 = EMA(EMA1), EMA3 = EMA(EMA2), all at the same bar
 //@ stream temaS(c stream, P1 int, m1 real, P2 int, m2 real, P3 int, m3 real)[k] = 3 * emaSt(c, P1, m1)[k + P2 - 1 + P3 - 1] - 3 * emaSt(emaSt(c, P1, m1), P2, m2)[k + P3 - 1] + emaS(emaSt(emaSt(c, P1, m1), P2, m2), P3, m3, k)
@@ -243,7 +244,8 @@ package trend
 //@ use ema_cong(res(Duplicate, 0)[0], c, apo.FastPeriod, 2 / real(apo.FastPeriod + 1), _)
 //@ use ema_cong(res(Duplicate, 0)[1], c, apo.SlowPeriod, 2 / real(apo.SlowPeriod + 1), _)
 //@ step[C01] "as-implemented" forall k :: 0 <= k && k < len(result) ==> result[k] == emaS(c, apo.FastPeriod, 2 / real(apo.FastPeriod + 1), k) - emaS(c, apo.SlowPeriod, 2 / real(apo.SlowPeriod + 1), k)
-//@ ensures[C01] "documented" forall k :: 0 <= k && k < len(result) ==> result[k] == apoS(c, apo.FastPeriod, apo.SlowPeriod)[k]
+//@ ensures[C01] "as-implemented" forall k :: 0 <= k && k < len(result) ==> result[k] == emaS(c, apo.FastPeriod, 2 / real(apo.FastPeriod + 1), k) - emaS(c, apo.SlowPeriod, 2 / real(apo.SlowPeriod + 1), k)
+//@ guarantees[C01] "documented" forall k :: 0 <= k && k < len(result) ==> result[k] == apoS(c, apo.FastPeriod, apo.SlowPeriod)[k]
 
 // Single EMA = EMA(9, Highs - Lows), Double EMA = EMA(9, Single EMA), Ratio = Single EMA / Double EMA (same bar),
 // Mass Index = SUM(Ratio, 25)
@@ -355,13 +357,14 @@ package trend
 //@ ensures[C03] consumed(high) == len(high) && consumed(low) == len(low) && closed(result0) && closed(result1)
 //@ ensures[C04] forall kk :: 0 <= kk && kk < len(result0) ==> hor(result0, kk) <= max(hor(high, kk + (a.Period - 1)), hor(low, kk + (a.Period - 1)))
 //@ ensures[C04] forall kk :: 0 <= kk && kk < len(result1) ==> hor(result1, kk) <= max(hor(high, kk + (a.Period - 1)), hor(low, kk + (a.Period - 1)))
-//@ ensures[C01] "documented-up" forall k :: 0 <= k && k < len(result0) ==> result0[k] == aroonUpS(high, a.Period)[k]
-//@ ensures[C01] "documented-down" forall k :: 0 <= k && k < len(result1) ==> result1[k] == aroonDownS(low, a.Period)[k]
-//@ ensures[C15] "up-at-least-0" forall k :: 0 <= k && k < len(result0) ==> 0 <= result0[k]
-//@ ensures[C15] "down-at-least-0" forall k :: 0 <= k && k < len(result1) ==> 0 <= result1[k]
+//@ guarantees[C01] "documented-up" forall k :: 0 <= k && k < len(result0) ==> result0[k] == aroonUpS(high, a.Period)[k]
+//@ guarantees[C01] "documented-down" forall k :: 0 <= k && k < len(result1) ==> result1[k] == aroonDownS(low, a.Period)[k]
+//@ guarantees[C15] "up-at-least-0" forall k :: 0 <= k && k < len(result0) ==> 0 <= result0[k]
+//@ guarantees[C15] "down-at-least-0" forall k :: 0 <= k && k < len(result1) ==> 0 <= result1[k]
 //@ use since_cong(res(MovingMax_Compute, 0), wmaxSt(high, a.Period), _)
 //@ use since_cong(res(MovingMin_Compute, 0), wminSt(low, a.Period), _)
 //@ step[C01,C15] "as-implemented" forall k :: 0 <= k && k < len(result0) ==> result0[k] == round(real(a.Period - since(wmaxSt(high, a.Period), k)) / a.Period * 100) && result1[k] == round(real(a.Period - since(wminSt(low, a.Period), k)) / a.Period * 100)
+//@ ensures[C01] "as-implemented" forall k :: 0 <= k && k < len(result0) ==> result0[k] == round(real(a.Period - since(wmaxSt(high, a.Period), k)) / a.Period * 100) && result1[k] == round(real(a.Period - since(wminSt(low, a.Period), k)) / a.Period * 100)
 //@ use since_nonneg(wmaxSt(high, a.Period), _)
 //@ use since_nonneg(wminSt(low, a.Period), _)
 //@ use aroon_upper(a.Period, _)
@@ -442,3 +445,64 @@ package trend
 //@ step[C01] "efficiency-ratio" forall j :: 0 <= j && j < len(ers) ==> ers[j] == abs(closings[j + k.ErPeriod] - closings[j]) / winS(absChS(closings), k.ErPeriod)[j]
 //@ guarantees[C01] "smoothing-constant" forall j :: 0 <= j && j < len(scs) ==> scs[j] == kamaScS(closings, k.ErPeriod, k.FastScPeriod, k.SlowScPeriod)[j]
 //@ guarantees[C01] "documented" forall kk :: 0 <= kk && kk < len(result) ==> result[kk] == kamaR(closings, scs, k.ErPeriod, kk)
+
+// ---- C18: the documented formulas of package trend scale with the price unit --------------------------------------
+//@ lemma macdS_pscale(c stream, d stream, lam real, P1 int, m1 real, P2 int, m2 real, k int)
+//@ requires[C18] 1 <= P1 && P1 <= P2 && k >= 0 && (forall j :: 0 <= j && j < k + P2 ==> d[j] == lam * c[j])
+//@ ensures[C18] macdS(d, P1, m1, P2, m2)[k] == lam * macdS(c, P1, m1, P2, m2)[k]
+//@ use ema_scale(c, d, lam, P1, m1, k + P2 - P1)
+//@ use ema_scale(c, d, lam, P2, m2, k)
+//@ use mul_lin(lam, emaS(c, P1, m1, k + P2 - P1), emaS(c, P2, m2, k))
+//@ lemma macdSignal_pscale(c stream, d stream, lam real, P1 int, m1 real, P2 int, m2 real, P3 int, m3 real, k int)
+//@ requires[C18] 1 <= P1 && P1 <= P2 && P3 >= 1 && k >= 0 && (forall j :: 0 <= j && j < k + P3 + P2 - 1 ==> d[j] == lam * c[j])
+//@ ensures[C18] emaS(macdS(d, P1, m1, P2, m2), P3, m3, k) == lam * emaS(macdS(c, P1, m1, P2, m2), P3, m3, k)
+//@ use[cond] macdS_pscale(c, d, lam, P1, m1, P2, m2, _)
+//@ use ema_scale(macdS(c, P1, m1, P2, m2), macdS(d, P1, m1, P2, m2), lam, P3, m3, k)
+//@ lemma smaSma_pscale(c stream, d stream, lam real, P2 int, P1 int, k int)
+//@ requires[C18] P1 >= 1 && P2 >= 1 && k >= 0 && (forall j :: 0 <= j && j < k + P1 + P2 - 1 ==> d[j] == lam * c[j])
+//@ ensures[C18] smaS(smaS(d, P2), P1)[k] == lam * smaS(smaS(c, P2), P1)[k]
+//@ use[cond] smaS_scale(c, d, lam, P2, _)
+//@ use smaS_scale(smaS(c, P2), smaS(d, P2), lam, P1, k)
+//@ lemma trimaS_pscale(c stream, d stream, lam real, P int, k int)
+//@ requires[C18] P >= 1 && k >= 0 && (forall j :: 0 <= j && j < k + trimaP1(P) + trimaP2(P) - 1 ==> d[j] == lam * c[j])
+//@ ensures[C18] trimaS(d, P)[k] == lam * trimaS(c, P)[k]
+//@ use smaSma_pscale(c, d, lam, trimaP2(P), trimaP1(P), k)
+//@ lemma wmaxSt_scale(a stream, b stream, lam real, P int, k int)
+//@ requires[C18] lam > 0 && P >= 1 && (forall j :: k <= j && j < k + P ==> b[j] == lam * a[j])
+//@ ensures[C18] wmaxSt(b, P)[k] == lam * wmaxSt(a, P)[k]
+//@ use wmax_scale(a, b, lam, k, k + P)
+//@ lemma wminSt_scale(a stream, b stream, lam real, P int, k int)
+//@ requires[C18] lam > 0 && P >= 1 && (forall j :: k <= j && j < k + P ==> b[j] == lam * a[j])
+//@ ensures[C18] wminSt(b, P)[k] == lam * wminSt(a, P)[k]
+//@ use wmin_scale(a, b, lam, k, k + P)
+//@ lemma aroonSince_pscale(a stream, b stream, lam real, P int, k int)
+//@ requires[C18] lam > 0 && P >= 1 && k >= 0 && (forall j :: 0 <= j && j < k + P ==> b[j] == lam * a[j])
+//@ ensures[C18] since(wmaxSt(b, P), k) == since(wmaxSt(a, P), k) && since(wminSt(b, P), k) == since(wminSt(a, P), k)
+//@ use[cond] wmaxSt_scale(a, b, lam, P, _)
+//@ use[cond] wminSt_scale(a, b, lam, P, _)
+//@ use since_scale(wmaxSt(a, P), wmaxSt(b, P), lam, k)
+//@ use since_scale(wminSt(a, P), wminSt(b, P), lam, k)
+//@ lemma emaEma_pscale(c stream, d stream, lam real, P1 int, m1 real, P2 int, m2 real, k int)
+//@ requires[C18] P1 >= 1 && P2 >= 1 && k >= 0 && (forall j :: 0 <= j && j < k + P1 + P2 - 1 ==> d[j] == lam * c[j])
+//@ ensures[C18] emaS(emaSt(d, P1, m1), P2, m2, k) == lam * emaS(emaSt(c, P1, m1), P2, m2, k)
+//@ use[cond] emaSt_scale(c, d, lam, P1, m1, _)
+//@ use ema_scale(emaSt(c, P1, m1), emaSt(d, P1, m1), lam, P2, m2, k)
+//@ lemma demaImpl_pscale(c stream, d stream, lam real, P1 int, m1 real, P2 int, m2 real, k int)
+//@ requires[C18] P1 >= 1 && P2 >= 1 && k >= 0 && (forall j :: 0 <= j && j < k + P1 + P2 - 1 ==> d[j] == lam * c[j])
+//@ ensures[C18] 2 * emaSt(d, P1, m1)[k] - emaS(emaSt(d, P1, m1), P2, m2, k) == lam * (2 * emaSt(c, P1, m1)[k] - emaS(emaSt(c, P1, m1), P2, m2, k))
+//@ use emaSt_scale(c, d, lam, P1, m1, k)
+//@ use emaEma_pscale(c, d, lam, P1, m1, P2, m2, k)
+//@ use mul_lin(lam, 2 * emaSt(c, P1, m1)[k], emaS(emaSt(c, P1, m1), P2, m2, k))
+//@ lemma ema3S_pscale(c stream, d stream, lam real, P int, k int)
+//@ requires[C18] P >= 1 && k >= 0 && (forall j :: 0 <= j && j < k + 3 * P - 2 ==> d[j] == lam * c[j])
+//@ ensures[C18] ema3S(d, P)[k] == lam * ema3S(c, P)[k]
+//@ use[cond] emaSt_scale(c, d, lam, P, 2 / real(P + 1), _)
+//@ use[cond] emaSt_scale(emaSt(c, P, 2 / real(P + 1)), emaSt(d, P, 2 / real(P + 1)), lam, P, 2 / real(P + 1), _)
+//@ use ema_scale(emaSt(emaSt(c, P, 2 / real(P + 1)), P, 2 / real(P + 1)), emaSt(emaSt(d, P, 2 / real(P + 1)), P, 2 / real(P + 1)), lam, P, 2 / real(P + 1), k)
+//@ lemma trixS_pscale(c stream, d stream, lam real, P int, k int)
+//@ requires[C18] lam > 0 && P >= 1 && k >= 0 && (forall j :: 0 <= j && j < k + 3 * P - 1 ==> d[j] == lam * c[j]) && ema3S(c, P)[k] != 0
+//@ ensures[C18] trixS(d, P)[k] == trixS(c, P)[k]
+//@ use ema3S_pscale(c, d, lam, P, k)
+//@ use ema3S_pscale(c, d, lam, P, k + 1)
+//@ use mul_lin(lam, ema3S(c, P)[k + 1], ema3S(c, P)[k])
+//@ use ratio_scale(lam, ema3S(c, P)[k + 1] - ema3S(c, P)[k], ema3S(c, P)[k])
